@@ -98,6 +98,9 @@ def u_tau2_identity(ip):
         ip.models["jax.numpy.swapaxes"] = lambda ip_, x, a_, b_: ip_.uf("transpose", ip_.to_U(x))
         ip.models["jax.numpy.linalg.eigvalsh"] = lambda ip_, m: ip_.uf("eigvalsh", ip_.to_U(m))
         ip.summaries[f"{MVN}::_log_pdet"] = lambda ip_, args, kwargs: lpdK
+        # a rank derived from eigenvalues with the distribution's own tolerance is SOME function of the penalty - not the rank hyperparameter
+        # the model hands over (C18.rank_and_log_pdet: number of eigenvalues above an absolute tolerance)
+        ip.summaries[f"{MVN}::_rank"] = lambda ip_, args, kwargs: z3.Real("rank_by_eigenvalue_count")
         ip.models["const:jax.numpy.pi"] = lambda ip_: z3.Real("pi")
         prec_holder = {}
 
@@ -142,7 +145,9 @@ def u_finite_discrete(ip):
     m = g.var("m", dist=g.dist("Pm"), parameter=True)
     w = g.var("w", value=g.calc("f_w", k))
     y = g.var("y", dist=g.dist("Lik", w, m), observed=True)
-    model = g.build(y)
+    beta = g.var("beta", dist=g.dist("Pbeta", k), parameter=True)  # the discrete variable parameterises the PRIOR of another parameter
+    free = g.var("free", dist=g.dist("Dfree", k))  # ... and the distribution of a variable that is neither observed nor a parameter
+    model = g.build(y, beta, free)
     outcomes = [z3.Const(f"outcome{j}", U) for j in range(3)]
     ip.models["jax.numpy.asarray"] = lambda ip_, x, *a, **kw: list(x) if isinstance(x, (list, tuple)) else x
     ip.models["jax.vmap"] = lambda ip_, f, **kw: PyFn(lambda ip2, xs: [ip2.call(f, [x], {}) for x in xs], "vmapped")
@@ -161,7 +166,9 @@ def u_finite_discrete(ip):
     m2 = g2.var("m", value=z3.Const("state_m", U), dist=g2.dist("Pm"), parameter=True)
     w2 = g2.var("w", value=g2.calc("f_w", k2))
     y2 = g2.var("y", value=z3.Const("state_y", U), dist=g2.dist("Lik", w2, m2), observed=True)
-    st = ip.getattr(g2.build(y2), "state")
+    beta2 = g2.var("beta", value=z3.Const("state_beta", U), dist=g2.dist("Pbeta", k2), parameter=True)
+    free2 = g2.var("free", value=z3.Const("state_free", U), dist=g2.dist("Dfree", k2))
+    st = ip.getattr(g2.build(y2, beta2, free2), "state")
     key = z3.Const("key", U)
     out = ip.call(kernel.f["_transition_fn"], [key, st], {})
     LPf = lambda fam, *a: TOTAL(ip.uf(f"logp_{fam}", *[ip.to_U(x) for x in a]))  # noqa: E731
@@ -169,7 +176,8 @@ def u_finite_discrete(ip):
     c.oblige("one_logit_per_outcome", isinstance(lg, list) and len(lg) == 3)
     if isinstance(lg, list) and len(lg) == 3:
         for j, o in enumerate(outcomes):
-            want = LPf("Prior", o) + LPf("Pm", z3.Const("state_m", U)) + LPf("Lik", ip.uf("f_w", o), z3.Const("state_m", U), z3.Const("state_y", U))
+            want = (LPf("Prior", o) + LPf("Pm", z3.Const("state_m", U)) + LPf("Lik", ip.uf("f_w", o), z3.Const("state_m", U), z3.Const("state_y", U))
+                    + LPf("Pbeta", o, z3.Const("state_beta", U)) + LPf("Dfree", o, z3.Const("state_free", U)))
             c.oblige(f"logit_{j}_is_joint_density_at_outcome", to_sort(lg[j], Real) == want)
     c.oblige("draw_is_selected_outcome", isinstance(out, dict) and list(out) == ["k"] and ip.to_U(out["k"]).eq(outcomes[1]))
     c.oblige("categorical_gets_the_transition_key", got.get("key") is key)
